@@ -181,6 +181,27 @@ def single_lattice(rng, tier):
         gap_model='no_flow')
     out[-1][1]['assign'] = [[a[0], a[1], a[2], {'DELTA_TEMP': 130.0}]
                             for a in out[-1][1]['assign']]
+    # second batch: less common model options
+    one('opt-shapefactor-ct', bundle_type(3, corr_shapefactor='CT'),
+        gap_model='flow')
+    one('opt-shapefactor-value', bundle_type(2, shape_factor=1.4),
+        gap_model='flow')
+    one('opt-bare-kc', bundle_type(3, Dw=0.0, Pw=0.0, corr_mixing='KC-BARE',
+                                   corr_friction='CTD', corr_flowsplit='CTD',
+                                   clearance=0.002),
+        gap_model='flow')
+    one('opt-dummy-pins', bundle_type(3, dummy_pin=[1, 8]), gap_model='flow')
+    one('opt-htc-custom-dd', bundle_type(2, nd=2,
+                                         htc_params_duct=[0.03, 0.75, 0.8, 6.0]),
+        gap_model='flow')
+    out[-1][1]['core_htc'] = [0.02, 0.8, 0.8, 5.0]
+    one('opt-eng-se2-mit', bundle_type(3, corr_friction='ENG',
+                                       corr_flowsplit='SE2',
+                                       corr_mixing='MIT'), gap_model='flow')
+    one('opt-lowfi-cf-float', bundle_type(3, use_low_fidelity_model=True,
+                                          low_fidelity_model='simple',
+                                          convection_factor=0.6),
+        gap_model='flow')
     if tier == 'thorough':
         one('rod4-adiabatic', bundle_type(4), power_order=2, ncell=3)
         one('rod5-dd', bundle_type(5, nd=2), gap_model='flow')
